@@ -36,7 +36,8 @@ structure Inv3 (c : Committee) (s : Node) : Prop where
   tcs : ∀ t, Out.tc t ∈ s.hist → t.verify c = .ok ()
   touts : ∀ t, Out.timeout t ∈ s.hist →
     QCok c t.highQC ∧ t.author = s.name ∧ t.sig = ⟨s.name, .timeout t.round t.highQC.round⟩
-  chains : ∀ b0 b1 blk, Out.twoChain b0 b1 blk ∈ s.hist → Checked c blk
+  chains : ∀ b0 b1 blk, Out.twoChain b0 b1 blk ∈ s.hist →
+    Checked c blk ∧ (b1 = Block.genesis ∨ Checked c b1)
   replied : ∀ to b, Out.helperReply to b ∈ s.hist → Checked c b
 
 theorem checked_genesis_qc (c : Committee) : QCok c QC.genesis := Or.inl (by decide)
@@ -253,17 +254,19 @@ theorem inv3_afterStore (c : Committee) (s : Node) (b0 b1 b : Block) (h : Inv3 c
   unfold afterStore storeBlock
   constructor <;> simp [Node.pendingBlocks] <;> grind [Inv3, Node.pendingBlocks]
 
-theorem inv3_beforeCommit (c : Committee) (s : Node) (b0 b1 b : Block) (h : Inv3 c s) (hb : Checked c b) :
+theorem inv3_beforeCommit (c : Committee) (s : Node) (b0 b1 b : Block) (h : Inv3 c s) (hb : Checked c b)
+    (hb1 : b1 = Block.genesis ∨ Checked c b1) :
     Inv3 c (beforeCommit s b0 b1 b) := by
   unfold beforeCommit
   have h1 := inv3_mempoolCleanup c _ b0.round (inv3_afterStore c s b0 b1 b h hb)
   constructor <;> simp [Node.pendingBlocks] <;> grind [Inv3, Node.pendingBlocks]
 
 theorem inv3_processBlockTail (c : Committee) (s : Node) (b0 b1 b : Block) (h : Inv3 c s)
-    (hb : Checked c b) : Inv3 c (processBlockTail c s b0 b1 b) := by
+    (hb : Checked c b) (hb1 : b1 = Block.genesis ∨ Checked c b1) :
+    Inv3 c (processBlockTail c s b0 b1 b) := by
   unfold processBlockTail
   split
-  · exact inv3_voteStage c _ _ b (inv3_commit c _ b0 (inv3_beforeCommit c s b0 b1 b h hb)) hb
+  · exact inv3_voteStage c _ _ b (inv3_commit c _ b0 (inv3_beforeCommit c s b0 b1 b h hb hb1)) hb
   · exact inv3_voteStage c _ _ b (inv3_afterStore c s b0 b1 b h hb) hb
 
 /-- Genesis is not `Checked` (nobody signed it), so ancestors are tracked as "genesis or checked". -/
@@ -298,7 +301,7 @@ theorem inv3_processBlock (c : Committee) (s : Node) (b : Block) (h : Inv3 c s) 
     split
     · exact inv3_fail c _ _ h2
     · exact h2
-    · exact inv3_processBlockTail c _ _ _ _ h2 hb
+    · exact inv3_processBlockTail c _ _ _ _ h2 hb hc1
 
 theorem inv3_payloadVerify (c : Committee) (s : Node) (b : Block) (h : Inv3 c s) (hb : Checked c b) :
     Inv3 c (s.payloadVerify b).1 := by
